@@ -14,16 +14,19 @@ MODEL_GROUP = "responder"
 THEOREM_FILE = "Props/C18.v"
 HARNESS_ARGS = ["sim"]
 PER_SHARD = 8
-LEVEL_TEXT = ("Coq theorems over Gallina models of the interface layer: interface selection (last matching selection "
-              "wins, for all selection lists over every IfKind constructor except Predicate and all interface tables; "
-              "Addr resolved at call time), valid_ip_on_intf = equality under the netmask for all addresses and masks, "
-              "per-interface address filtering, the interface table after apply_intf_selections / check_ip_changes, "
-              "and full functional statements of DnsCache::remove_records_on_intf and remove_addrs_on_disabled_intf; "
-              "the daemon-level behaviour (which interface each packet leaves on and what it contains, automatic "
-              "addresses, enable/disable in call order, interface disappearance with browse and IpAdd/IpDel events) is "
-              "tied to the Rust by a differential run of the real daemon in the simulated world against an executable "
-              "model of the daemon restricted to these features, with the invariant checker chk_C18 run on the "
-              "implementation's trace")
+LEVEL_TEXT = ("Coq theorems over Gallina models of the interface layer. Components: interface selection (last matching "
+              "selection wins, all selection lists over every IfKind constructor except Predicate, all tables; Addr "
+              "resolved at call time), valid_ip_on_intf = equality under the netmask for all addresses and masks, "
+              "per-interface address filtering, the interface table after apply_intf_selections / check_ip_changes, full "
+              "functional statements of DnsCache::remove_records_on_intf and remove_addrs_on_disabled_intf. Over ALL "
+              "histories of the daemon model (Model/IntfDaemon.v; induction over the step list, no bound): a state "
+              "invariant holds initially and is preserved by every step (interface-table changes, IP checks, enable / "
+              "disable of every kind, register, unregister, datagrams, due retransmissions); every packet emitted in "
+              "any history outside the known class C18-selection-while-absent leaves on an interface the daemon holds, "
+              "of a family that interface has, enabled by its last matching selection, and carries only addresses in "
+              "a subnet of an address of that interface; after an IP check nothing in the cache is attributed to a "
+              "removed interface (for every state). The daemon model is tied to the Rust by a differential run of the "
+              "real daemon in the simulated world, with the checker chk_C18 run on the implementation's trace")
 TECHNIQUE = ("machine-checked proof in Coq (selection law by induction over the selection list, bitwise subnet law, "
              "membership characterisations of the cache operations) + model/implementation correspondence on the "
              "simulated daemon with a changing interface table")
@@ -45,22 +48,26 @@ TRUSTED = [
     "interval and due-test, TTL constants",
     "hooks: cargo feature verif-hooks (simulated interface table, sockets, clock, per-iteration gate)",
     "Model/IntfDaemon.v is an executable model of the daemon restricted to the features C18 observes; it is "
-    "validated against the Rust by the correspondence run, its history-level invariants are checked by chk_C18 on "
-    "every trace (model and implementation) but proved only for the interface table (see PARTIAL)",
+    "validated against the Rust by the correspondence run (0 disagreements); the history-level theorems are about "
+    "this model",
     "observation function of the simulated world: an IPv4 packet is reported on the interface that owns, in the OS "
     "table of the moment, the address given to IP_MULTICAST_IF; per browsed instance only the last "
     "resolved/removed event of an iteration is compared (HashMap order of simultaneous interface removals)",
     "modelled, not verified: the daemon's own queries, probing, SearchStarted and monitor events other than IpAdd/IpDel "
     "are removed from the observation; record expiry is outside the histories (TTL 4500 s, histories < 40 s)",
 ]
-PARTIAL = ("The history-level statement 'every packet of every reachable history leaves only on enabled interfaces with "
-           "a matching subnet' is proved for the components (selection, subnet filter, interface table after a check, "
-           "response contents) and monitored on traces; the induction over whole histories of the daemon model is not "
-           "mechanised.  IfKind::Predicate (a user closure) is outside the model.  Multicast group membership itself "
-           "is removed by the hooks.  One finding stays (C18-selection-while-absent); the goodbye-repeat finding was "
-           "repaired in /repo and the model follows.  The cache attributes a PTR/SRV/TXT record heard on several interfaces to the "
-           "first one only (theorem insert_keeps_first_attribution); the removal statements are relative to that "
-           "attribution.")
+PARTIAL = ("Theorems over all histories: C18_invariant_reachable, C18_step_preserves_invariant, "
+           "C18_every_packet_justified (hypotheses: unique (interface, address) pairs per OS table; history outside "
+           "the decidable class known_class = finding C18-selection-while-absent, witness C18_known_class_witness), "
+           "C18_check_forgets_removed_interfaces (every state). NOT a theorem: that the executable checker chk_C18 "
+           "accepts every run of the model (C18_checker_accepts_every_run_partial in Props/C18.v: pkt_just is the "
+           "packet part of chk_C18 on the model's side; missing are the octet round trip of addresses (width "
+           "hypotheses), the identification of the IPv4 egress interface, and the IpAdd/IpDel conditions); chk_C18 is "
+           "run on every trace instead. The address records of a packet are tied to the interface's subnets in the "
+           "history theorem and to the service's address list in the component theorems. IfKind::Predicate and "
+           "multicast group membership are outside the model. The cache attributes a PTR/SRV/TXT record heard on "
+           "several interfaces to the first one only (C18_record_keeps_first_interface); the removal statements are "
+           "relative to that attribution; the disable path drops only address records (as the code does).")
 
 LO = [{"name": "lo", "index": 1, "addr": "127.0.0.1", "mask": "255.0.0.0"},
       {"name": "lo", "index": 1, "addr": "::1", "mask": "ffff:ffff:ffff:ffff:ffff:ffff:ffff:ffff"}]
